@@ -84,7 +84,8 @@ DoReinit(st) == Out("ok", [st EXCEPT !.cert = [k \in CertKeys |-> Kill(st.cert[k
 (*  k    : key named in the ALPN-carried request                           *)
 (*  ck   : identity whose certificate chain is presented                   *)
 (*  chain: b0 (chain from the root that was current at issuance) | b1 (from *)
-(*         the root that was next at issuance) | foreign | self            *)
+(*         the root that was next at issuance) | foreign | self |          *)
+(*         selfNoSan (self-signed, no subject alternative names)           *)
 (*  priv : the client holds ck's private key                               *)
 (*  nsig : who signed the nonce;  stt: client state none | ok (signed by   *)
 (*         nsig) | forged (signed by kx) | unsigned                        *)
@@ -154,7 +155,7 @@ Apply(st, o) ==
     [] o.op = "Malformed" -> DoMalformed(st, o)
 
 (* universes *)
-AuthClients == [op : {"Connect"}, kind : {"auth"}, k : CertKeys, ck : CertKeys, chain : {"b0", "b1", "foreign", "self"},
+AuthClients == [op : {"Connect"}, kind : {"auth"}, k : CertKeys, ck : CertKeys, chain : {"b0", "b1", "foreign", "self", "selfNoSan"},
                 priv : BOOLEAN, nsig : Signers, stt : {NONE, "ok", "forged", "unsigned"}, skip : BOOLEAN,
                 nid : {NONE, "own", "other", "bogus"}, pref : {"cur", "next", "garbage", NONE}, cn : BOOLEAN]
 MixedClients == {[c EXCEPT !.kind = m] : c \in {x \in AuthClients : ~x.cn /\ x.pref = "cur" /\ x.nid = NONE /\ x.stt = NONE},
@@ -168,7 +169,9 @@ MalClasses == {"empty", "short1", "short2", "nob64", "b64rand", "b64trunc", "ove
                "clientAlert", "resetMidHello", "resetAfterHello", "flipUndecodable", "rawSslv2", "rawOversizeRecord", "rawHttp", "rawBadVersion",
                \* a peer that keeps its handshake open (sending nothing / part of a record header / a whole ClientHello) for
                \* several seconds while an honest node dials, then goes away
-               "stallSilent", "stallPartial", "stallAfterHello"}
+               "stallSilent", "stallPartial", "stallAfterHello",
+               \* a peer that COMPLETES a well-formed credential-fetch handshake and resets its socket right after its last flight
+               "resetAfterHandshake"}
 MalPrefixes == {"fetch", "auth", "pref"}
 
 (***************************************************************************)
